@@ -43,6 +43,9 @@ func genC10(tier string, seed uint64) []genOut {
 		}
 		cb.observeAll(sg)
 		cb.q("crc", itoa(sg))
+		if class != "chunk" {
+			cb.layoutQueries(sg)
+		}
 		out = append(out, genOut{cb.c, cb.n[sg] > 0, class})
 	}
 	return out
